@@ -361,34 +361,47 @@ def collect_traces(ctx, supports):
         for x in shape:
             n *= x
         sel = [ctx.rng.choice(pairs) for _ in range(n)]
-        tot = torch.tensor([p[0] for p in sel]).view(shape)
-        giv = torch.tensor([p[1] for p in sel]).view(shape)
+        # counts as integer or floating tensors (both are accepted); the SAME tensors / the SAME distribution object are
+        # used for two successive draws: a draw must neither change its arguments nor the distribution
+        cdt = ctx.rng.choice([torch.long, torch.float])
+        tot = torch.tensor([p[0] for p in sel]).view(shape).to(cdt)
+        giv = torch.tensor([p[1] for p in sel]).view(shape).to(cdt)
+        tot0, giv0 = tot.clone(), giv.clone()
         osz = max(1, int(tot.max())) + ctx.rng.choice([0, 0, 1])
         use_dist = j % 2 == 1
         case = dict(type="srs_batch", total=tot.tolist(), given=giv.tolist(), osz=osz, dist=use_dist,
-                    seed=ctx.seed * 100003 + j)
-        try:
-            if use_dist:
-                ss = ctx.rng.choice([(), (2,)])
-                out = _est.quiet(SRS(giv, tot, osz).sample, ss)
-                want_shape = tuple(ss) + tuple(shape) + (osz,)
-                site = "SimpleRandomSamplingWithoutReplacement.sample"
-            else:
-                out = _est.quiet(F.simple_random_sampling_without_replacement, tot, giv, osz)
-                want_shape = tuple(shape) + (osz,)
-                site = "simple_random_sampling_without_replacement"
-        except Exception as ex:
-            _viol(ctx, dict(site="SimpleRandomSamplingWithoutReplacement.sample" if use_dist
-                            else "simple_random_sampling_without_replacement", kind="exception",
-                            exc=type(ex).__name__), "raised %r" % ex, case)
-            continue
-        if tuple(out.shape) != want_shape:
-            _viol(ctx, dict(site=site, kind="shape"), "shape %r expected %r" % (tuple(out.shape), want_shape), case)
-            continue
-        rows = out.reshape(-1, n, osz) if use_dist else out.reshape(1, n, osz)
-        for rep_ in rows:
-            for i in range(n):
-                add(sel[i][0], sel[i][1], osz, rep_[i].tolist(), "dist" if use_dist else "func")
+                    seed=ctx.seed * 100003 + j, count_dtype=str(cdt))
+        dist = None
+        for draw in (1, 2):
+            try:
+                if use_dist:
+                    ss = ctx.rng.choice([(), (2,)]) if draw == 1 else ()
+                    if dist is None:
+                        dist = SRS(giv, tot, osz)
+                    out = _est.quiet(dist.sample, ss)
+                    want_shape = tuple(ss) + tuple(shape) + (osz,)
+                    site = "SimpleRandomSamplingWithoutReplacement.sample"
+                else:
+                    out = _est.quiet(F.simple_random_sampling_without_replacement, tot, giv, osz)
+                    want_shape = tuple(shape) + (osz,)
+                    site = "simple_random_sampling_without_replacement"
+            except Exception as ex:
+                _viol(ctx, dict(site="SimpleRandomSamplingWithoutReplacement.sample" if use_dist
+                                else "simple_random_sampling_without_replacement", kind="exception",
+                                exc=type(ex).__name__), "draw %d raised %r" % (draw, ex), case)
+                break
+            if tuple(out.shape) != want_shape:
+                _viol(ctx, dict(site=site, kind="shape"), "shape %r expected %r" % (tuple(out.shape), want_shape), case)
+                break
+            if not (torch.equal(tot, tot0) and torch.equal(giv, giv0)):
+                _viol(ctx, dict(site=site, kind="arguments_mutated"),
+                      "after draw %d the caller's counts are total=%r given=%r (were %r, %r)" % (
+                          draw, tot.tolist(), giv.tolist(), tot0.tolist(), giv0.tolist()), case)
+                break
+            rows = out.reshape(-1, n, osz) if use_dist else out.reshape(1, n, osz)
+            for rep_ in rows:
+                for i in range(n):
+                    add(sel[i][0], sel[i][1], osz, rep_[i].tolist(), "dist" if use_dist else "func")
     return traces
 
 
@@ -704,11 +717,20 @@ def replay(ctx, case):
         from pydrobert.torch.distributions import SimpleRandomSamplingWithoutReplacement as SRS
 
         torch.manual_seed(case["seed"])
-        tot, giv = torch.tensor(case["total"]), torch.tensor(case["given"])
+        cdt = torch.float if "float" in case.get("count_dtype", "int64") else torch.long
+        tot, giv = torch.tensor(case["total"]).to(cdt), torch.tensor(case["given"]).to(cdt)
+        tot0, giv0 = tot.clone(), giv.clone()
         try:
-            out = (SRS(giv, tot, case["osz"]).sample() if case["dist"]
-                   else F.simple_random_sampling_without_replacement(tot, giv, case["osz"]))
-            print("replay: shape", tuple(out.shape))
+            dist = SRS(giv, tot, case["osz"]) if case["dist"] else None
+            for draw in (1, 2):
+                out = (dist.sample() if case["dist"]
+                       else F.simple_random_sampling_without_replacement(tot, giv, case["osz"]))
+                print("replay: draw", draw, "shape", tuple(out.shape), "ones per row", out.sum(-1).flatten().tolist(),
+                      "given", giv.flatten().tolist())
+                if not (torch.equal(tot, tot0) and torch.equal(giv, giv0)):
+                    ctx.violation(dict(site="simple_random_sampling_without_replacement", kind="arguments_mutated"),
+                                  "the caller's counts changed", case)
+                    break
         except Exception as ex:
             ctx.violation(dict(site="simple_random_sampling_without_replacement", kind="exception"), repr(ex), case)
     else:
